@@ -66,7 +66,10 @@ RefStep(rs, e) ==
            ELSE IF e.find = -1 THEN "C10/Find/misses-a-match" ELSE "C10/Find/length-is-not-a-valid-match-end"),
           IF e.is_match THEN "C10/IsMatch/matches-outside-the-language" ELSE "C10/IsMatch/misses-a-match")
     [] e.ev = "quote" ->
-         E(e.out = Decode(e.s, 1, {e.protected[i] : i \in 1..Len(e.protected)}), rs, "C10/Quoter/decoding-differs")
+         E(e.out = Decode(e.s, 1, {e.protected[i] : i \in 1..Len(e.protected)}),
+           \* Url::path(): the same decoding (default protected set), then UTF-8 with replacement characters (compared by the harness)
+           E(e.url_ok, rs, "C10/Quoter/url-path-is-not-the-decoded-text"),
+           "C10/Quoter/decoding-differs")
     [] e.ev = "longmatch" ->   \* long paths: the generator joined known segments, the harness compared with them
          E(e.is_match /\ e.find_ok /\ e.cap_ok /\ e.caps_ok, rs, "C10/Long/capture-or-length-wrong-on-a-long-path")
     [] e.ev = "Panic" -> Rej("C19/Panic", "")
